@@ -65,7 +65,7 @@ func genC04Plain(seed uint64, run int, tier string) *Plan {
 		PCTDepth: 1 + r.IntN(3),
 		ExpireMs: pick(r, int64(200), 1000, 60000),
 	}
-	p.Cfg.Fine = fineKnob(seed, 15, 3)
+	p.Cfg.Fine = fineTier(tier, seed, 15, 3)
 	keys := 1 + r.IntN(3)
 	ntasks := 2 + r.IntN(3)
 	tag := 0
@@ -99,7 +99,7 @@ func genC04Plain(seed uint64, run int, tier string) *Plan {
 	}
 	for ti := 0; ti < ntasks; ti++ {
 		tp := TaskPlan{Name: fmt.Sprintf("client%d", ti)}
-		for n := 1 + r.IntN(5); n > 0; n-- {
+		for n := deepen(tier, seed, 1+r.IntN(5)); n > 0; n-- {
 			var op Op
 			switch k := r.IntN(10); {
 			case k < 6:
